@@ -23,11 +23,13 @@ import (
 	"verifharness/sched"
 	"verifharness/trackerb"
 	"verifharness/upload"
+	"verifharness/webseedb"
 	"verifharness/wire"
 )
 
 var bindings = map[string]func(in []byte) any{
 	"piecestore": piecestore.Replay,
+	"webseed":    webseedb.Handle,
 	"crypto":     cryptob.Handle,
 	"live":       live.Handle,
 	"peerfsm":    peerfsm.Replay,
